@@ -465,6 +465,18 @@ def own_rule(ctx, only_module: str | None = None, rule: str = "C10.own", fields=
                 st = kws.get(pname, sts[idx] if 0 <= idx < len(sts) else None)
                 if st != own.OWNED:
                     bad.append(g.ident)
+            # the caller gives the array away: it must not read it again after the call (a helper that sorts / overwrites its argument for a log line changes
+            # what the caller goes on to use -- the weights handed to the generator, the cached densities of the population)
+            for c_ in ast.walk(g.node):
+                if not (isinstance(c_, ast.Call) and ((isinstance(c_.func, ast.Name) and c_.func.id == f.name and not is_method)
+                                                      or (isinstance(c_.func, ast.Attribute) and c_.func.attr == f.name and is_method))):
+                    continue
+                kw_ = {k_.arg: k_.value for k_ in c_.keywords}
+                arg_ = kw_.get(pname, c_.args[idx] if 0 <= idx < len(c_.args) else None)
+                if isinstance(arg_, ast.Name):
+                    later = [x_ for x_ in ast.walk(g.node) if isinstance(x_, ast.Name) and x_.id == arg_.id and isinstance(x_.ctx, ast.Load) and x_.lineno > (c_.end_lineno or c_.lineno)]
+                    if later and g.ident not in bad:
+                        bad.append(g.ident)
         return sites, bad
 
     for f in repo.all_functions():
@@ -619,7 +631,12 @@ MUTANTS += [
       "lp = self.log_prior(new_samples)\n            valid = self.xp.isfinite(self.xp.asarray(lp))\n            new_samples.log_prior = new_samples.array_to_namespace(lp)", "C10.init"),
 ]
 
+MUTANTS += [
+    M("debug diagnostic sorts the cached log-likelihood in place", "src/aspire/samplers/smc/base.py", "samples = self.mutate(samples, beta)\n                if store_sample_history:", "samples = self.mutate(samples, beta)\n                log_l = self.xp.asarray(samples.log_likelihood)\n                log_l.sort()\n                logger.debug(f\"median log-likelihood: {log_l[len(log_l) // 2]}\")\n                if store_sample_history:", "C10.own"),
+]
+
 NEUTRALS = [
+    M("debug diagnostic on a sorted copy of the cached log-likelihood", "src/aspire/samplers/smc/base.py", "samples = self.mutate(samples, beta)\n                if store_sample_history:", "samples = self.mutate(samples, beta)\n                log_l = self.xp.sort(samples.log_likelihood)\n                logger.debug(f\"median log-likelihood: {log_l[len(log_l) // 2]}\")\n                if store_sample_history:"),
     __import__("aspire_sa.rules.smcloop", fromlist=["HELPER_NEUTRAL"]).HELPER_NEUTRAL,
     M("bounded step through a private helper that writes into the caller's working copy", _T, "y, log_j_bounded = self._bounded_transform.forward(\n                x[..., self.bounded_mask]\n            )\n            x = update_at_indices(x, (slice(None), self.bounded_mask), y)\n            log_abs_det_jacobian += log_j_bounded", "x, log_j_bounded = self._put_bounded(x, self._bounded_transform.forward)\n            log_abs_det_jacobian += log_j_bounded",
       within="CompositeTransform", more=[("def forward(self, x):\n        x = copy_array(x, xp=self.xp)", "def _put_bounded(self, x, func):\n        y, log_j = func(x[..., self.bounded_mask])\n        x = update_at_indices(x, (slice(None), self.bounded_mask), y)\n        return x, log_j\n\n    def forward(self, x):\n        x = copy_array(x, xp=self.xp)")]),
